@@ -1232,6 +1232,14 @@ func (e *Env) evalCall(n SCall) Val {
 			}
 			gh := x.heapGet(e.st, "GH_hashed", "(Array Int String)")
 			return Val{T: Select(gh, Term{fmt.Sprintf("(ival %s)", h.T.S), "Int"}), Typ: types.Typ[types.String]}
+		case "unread":
+			// unread(rd): the bytes the io.Reader rd still holds (what reading it to the end yields)
+			v := e.eval(n.Args[0])
+			if v.T.Sort != "Iface" {
+				return e.fail("unread() needs an io.Reader")
+			}
+			rb := x.heapGet(e.st, "GH_rbytes", "(Array Int String)")
+			return Val{T: Select(rb, Term{fmt.Sprintf("(ival %s)", v.T.S), "Int"}), Typ: types.Typ[types.String]}
 		case "bodyBytes":
 			// bodyBytes(req): the bytes the request built by http.NewRequestWithContext will send
 			// (what its body reader holds, when known)
